@@ -435,6 +435,26 @@ def packChunk(msg):
     lines.append(b'\r\n')
     return (b''.join(lines))
 
+def findEol(raw, eols=(CRLF, LF, CR )):
+    """
+    Returns duple (index, size) where index is the offset into raw bytearray of
+    the earliest occurring line terminator from eols and size is its length.
+    When two terminators start at the same offset the longer one is used.
+    Returns (-1, 0) when no terminator is found yet. This includes the case
+    where both CR and CRLF are in eols and the only terminator found is a
+    CR that is the last byte of raw, since it may be the first half of a CRLF
+    whose LF has not arrived yet.
+    """
+    index, size = -1, 0
+    for eol in eols:
+        i = raw.find(eol) if index < 0 else raw.find(eol, 0, index + len(eol))
+        if i >= 0 and (index < 0 or i < index or len(eol) > size):
+            index, size = i, len(eol)
+
+    if size == 1 and index == len(raw) - 1 and raw[index:] == CR and CRLF in eols:
+        return (-1, 0)  # wait for byte after CR
+    return (index, size)
+
 def parseLine(raw, eols=(CRLF, LF, CR ), kind="event line"):
     """
     Generator to parse  line from raw bytearray
@@ -449,10 +469,7 @@ def parseLine(raw, eols=(CRLF, LF, CR ), kind="event line"):
     Raise error if eol not found before MAX_LINE_SIZE
     """
     while True:
-        for eol in eols:  # loop over eols unless found
-            index = raw.find(eol)  # not found index == -1
-            if index >= 0:
-                break
+        index, size = findEol(raw, eols)  # earliest eol, not found index == -1
 
         if index < 0:  # not found
             if len(raw) > MAX_LINE_SIZE:
@@ -465,7 +482,7 @@ def parseLine(raw, eols=(CRLF, LF, CR ), kind="event line"):
             raise LineTooLong(kind)
 
         line = raw[:index]
-        index += len(eol)  # strip eol
+        index += size  # strip eol
         del raw[:index] # remove used bytes
         (yield line)
     return
@@ -481,10 +498,7 @@ def parseLeader(raw, eols=(CRLF, LF), kind="leader header line", headers=None):
     """
     headers = headers if headers is not None else cimdict()
     while True:  # loop until entire heading indicated by empty line
-        for eol in eols:  # loop over eols unless found
-            index = raw.find(eol)  # not found index == -1
-            if index >= 0:
-                break
+        index, size = findEol(raw, eols)  # earliest eol, not found index == -1
 
         if index < 0:  # not found
             if len(raw) > MAX_LINE_SIZE:
@@ -497,7 +511,7 @@ def parseLeader(raw, eols=(CRLF, LF), kind="leader header line", headers=None):
             raise LineTooLong(kind)
 
         line = raw[:index]
-        index += len(eol)  # strip eol
+        index += size  # strip eol
         del raw[:index] # remove used bytes
         if line:
             line = line.decode('iso-8859-1')  # convert to unicode string
